@@ -85,8 +85,7 @@ def cmdLoop : Nat → Nat → Nat → St → List UInt8 → Res (List UInt8 × S
         let len := (c1.toNat % 16) + Gen.lz5Threshold
         (Ring.copyLoop Gen.lz5RingSize len start s.ring s.pos acc) >>= fun r =>
         cmdLoop k (bit + 1) bitmap { src := g.2, ring := r.1, pos := r.2.1 } r.2.2
-      | [] => .ok (acc, { s with src := g.2 })
-      | _ => .fault "lz5: cmd[1] used uninitialised (short answer to a 2-byte request)"
+      | _ => .ok (acc, { s with src := g.2 })      -- fewer than 2 bytes: break
 
 /-- `lha_lz5_read` -/
 def read (s : St) : Res (List UInt8 × St) :=
